@@ -40,7 +40,8 @@ def exhaustive(tier):
 def required(tier):
     return ["all_40_headers_routed_alone", "all_40_together", "empty_body", "bom_by_path", "crlf", "crlf_by_path", "unknown_between_known",
             "required_first", "required_last", "missing:Song", "missing:SyncTrack", "missing:Events", "instrument_before_Song", "align:straddle", "align:line_end", "rendering_parsed_with_selection_of_all_tracks",
-            "lf_and_crlf_mixed_in_one_file", "no_line_terminator_after_the_last_brace"]
+            "lf_and_crlf_mixed_in_one_file", "no_line_terminator_after_the_last_brace",
+            "missing_required_but_unknown_title_contains_its_name"]
 
 
 def shards(tier, seed):
@@ -242,6 +243,11 @@ def run_spec(rec, rng, case, n_render):
     # each required section removed in turn => ValueError
     for miss in ("Song", "SyncTrack", "Events"):
         secs = [s for s in sections if s[0] != miss]
+        if rng.random() < 0.5:
+            # ... also when an UNKNOWN section's title contains the missing name (a backup copy, a tool's own section)
+            title = rng.choice(["Practice" + miss, miss + "Info", miss + "Backup", "My" + miss + "2", miss.lower(), miss + " (old)"])
+            secs.insert(rng.randint(0, len(secs)), (title, [rng.choice(BODY_POOL) for _ in range(rng.choice([0, 2]))]))
+            rec.cls("missing_required_but_unknown_title_contains_its_name")
         out = harness.parse(gen.render_sections(secs))
         probes.drain()
         rec.ev()
